@@ -34,7 +34,7 @@ def generate(rng, seed, index, tier):
     npb = int(rng.integers(1, 4))
     problems, starts = [], []
     for _ in range(npb):
-        fam = str(rng.choice(["qp", "nlp", "degenerate", "domain", "infeasible"], p=[0.35, 0.35, 0.1, 0.1, 0.1]))
+        fam = str(rng.choice(["qp", "nlp", "degenerate", "domain", "infeasible", "expo"], p=[0.3, 0.3, 0.1, 0.1, 0.05, 0.15]))
         spec, x0, y0 = gen.gen_problem(rng, fam, nmax=5)
         spec["policy"] = str(rng.choice(["fresh", "memo"], p=[0.7, 0.3]))
         problems.append(spec)
